@@ -208,6 +208,10 @@ func writeEvidence(o Opts, start time.Time, cov map[string]any, assumptions []st
 	ev := Evidence{PropertyID: o.Prop, Tier: o.Tier, Seed: o.Seed, Level: "exploration", Coverage: cov,
 		Assumptions: assumptions, WallS: time.Since(start).Seconds(), Violations: violations}
 	dir := filepath.Join(verifDir, "evidence")
+	if os.Getenv("VERIF_REPO") != "" {
+		// harness maintenance run against a scratch worktree: not evidence about /repo
+		dir = filepath.Join(envOr("VERIF_SCRATCH", "/var/tmp"), "verif.maintenance.evidence")
+	}
 	os.MkdirAll(dir, 0o755)
 	b, _ := json.MarshalIndent(ev, "", " ")
 	if err := os.WriteFile(filepath.Join(dir, o.Prop+".json"), b, 0o644); err != nil {
